@@ -52,6 +52,9 @@ class ZONEINFO(TZProvider):
             # IsADirectoryError: the key is a directory of the database (Europe)
             # OSError: File name too long
             pass
+        except RecursionError:
+            # the key has thousands of path segments (a/a/a/.../b)
+            pass
 
     def knows_timezone_id(self, id: str) -> bool:
         """Whether the timezone is already cached by the implementation."""
